@@ -310,6 +310,10 @@ pub struct Profile {
     pub pct_unknown_event: u32,
     /// give every region of every parallel a final child
     pub region_finals: bool,
+    /// eventless transitions additionally guarded by the value of `v`
+    pub pct_data_guard: u32,
+    /// transition content increments `v`
+    pub pct_assign_v: u32,
 }
 
 impl Profile {
@@ -342,6 +346,8 @@ impl Profile {
             max_events: 12,
             pct_unknown_event: 10,
             region_finals: false,
+            pct_data_guard: 25,
+            pct_assign_v: 25,
         }
     }
     pub fn queues() -> Profile {
@@ -354,6 +360,24 @@ impl Profile {
         p.pct_done_handlers = 40;
         p.pct_final = 15;
         p.dm_weights = [0, 85, 15];
+        p.pct_data_guard = 60;
+        p.pct_assign_v = 45;
+        p.pct_targetless = 30;
+        p
+    }
+    /// small machines in which targetless handlers of internal events change the data that
+    /// guards eventless transitions
+    pub fn queues_data() -> Profile {
+        let mut p = Profile::queues();
+        p.max_states = 6;
+        p.max_depth = 3;
+        p.pct_targetless = 50;
+        p.pct_data_guard = 85;
+        p.pct_assign_v = 70;
+        p.pct_raise = 60;
+        p.pct_eventless = 40;
+        p.pct_history = 10;
+        p.dm_weights = [0, 90, 10];
         p
     }
     pub fn history() -> Profile {
@@ -675,6 +699,11 @@ pub fn gen_doc(t: &mut Tape, p: &Profile) -> Doc {
                         let s = &all_ids[non_hist[t.below(non_hist.len())]];
                         c = X::And(Box::new(c), Box::new(X::In(s.clone())));
                     }
+                    if t.chance(p.pct_data_guard) {
+                        // becomes enabled only after some content has changed `v`
+                        let g = if t.bool() { X::Eq(Box::new(X::Var("v".into())), Box::new(X::Int(t.range(1, 3)))) } else { X::Lt(Box::new(X::Int(t.range(0, 2))), Box::new(X::Var("v".into()))) };
+                        c = X::And(Box::new(c), Box::new(g));
+                    }
                     tr.cond = Some(c);
                     tr.content.push(C::Assign { var: "cnt".into(), expr: X::Add(Box::new(X::Var("cnt".into())), Box::new(X::Int(1))) });
                 } else if t.chance(p.pct_cond) {
@@ -702,7 +731,7 @@ pub fn gen_doc(t: &mut Tape, p: &Profile) -> Doc {
                         }
                         tr.content.push(C::Mark { tag, args });
                     }
-                    if t.chance(20) {
+                    if t.chance(p.pct_assign_v) {
                         tr.content.push(C::Assign { var: "v".into(), expr: X::Add(Box::new(X::Var("v".into())), Box::new(X::Int(1))) });
                     }
                     gen_queue_content(t, p, &mut tr.content);
